@@ -211,8 +211,12 @@ def HoldOk : GOp → Prop
   | .ctl .hold => True
   | .ctl _ => False
 
-theorem hold_of_held {l : Link Env} (h : C08.Held l) : l.hold.sent = l.sent := by
-  unfold Link.hold
+/-- with the repair of F-C08-1 (`fixMatured`) the ready queues of the link are empty — the state `hold`
+    leaves them in, and which lasts as long as the hold (nothing matures on a held link). -/
+def ReadyOK (l : Link Env) : Prop := l.fixMatured = true → l.toA = [] ∧ l.toB = []
+
+theorem holdRaw_of_held {l : Link Env} (h : C08.Held l) : l.holdRaw.sent = l.sent := by
+  unfold Link.holdRaw
   simp only
   have : ∀ s ∈ l.sent, (fun s : Sent Env => { s with status := Status.hold }) s = s := by
     intro s hs
@@ -223,7 +227,23 @@ theorem hold_of_held {l : Link Env} (h : C08.Held l) : l.hold.sent = l.sent := b
     rfl
   exact (List.map_congr_left this).trans (List.map_id _)
 
-theorem held_gstep (cfg : Cfg) {l : Link Env} (h : C08.Held l) (o : GOp) (ho : HoldOk o) :
+/-- `hold` on a link that is already held (ready queues empty under the repair) changes nothing. -/
+theorem hold_of_held {l : Link Env} (h : C08.Held l) (hq : ReadyOK l) :
+    l.hold.sent = l.sent ∧ l.hold.toA = l.toA ∧ l.hold.toB = l.toB ∧ l.hold.nextId = l.nextId := by
+  unfold Link.hold
+  split
+  · rename_i hf
+    obtain ⟨qa, qb⟩ := hq hf
+    have e : l.recall.sent = l.sent := by simp [Link.recall, qa, qb]
+    have hh : C08.Held l.recall := ⟨h.ab, h.ba, by rw [e]; exact h.all⟩
+    refine ⟨(holdRaw_of_held hh).trans e, ?_, ?_, rfl⟩
+    · show ([] : List (Sent Env)) = l.toA
+      rw [qa]
+    · show ([] : List (Sent Env)) = l.toB
+      rw [qb]
+  · exact ⟨holdRaw_of_held h, rfl, rfl, rfl⟩
+
+theorem held_gstep (cfg : Cfg) {l : Link Env} (h : C08.Held l) (hq : ReadyOK l) (o : GOp) (ho : HoldOk o) :
     HeldRel l (gstep cfg l o).1 (gstep cfg l o).2 := by
   cases o with
   | enq cf cr d s t e =>
@@ -257,18 +277,29 @@ theorem held_gstep (cfg : Cfg) {l : Link Env} (h : C08.Held l) (o : GOp) (ho : H
   | ctl c =>
     cases c with
     | hold =>
-      refine ⟨C08.hold_establishes l, ⟨[], by simp [gstep, Ctl.fn, hold_of_held h]⟩, ?_, Nat.le_refl _⟩
-      simp [gstep, Ctl.fn, Link.hold]
+      obtain ⟨e1, e2, e3, e4⟩ := hold_of_held h hq
+      refine ⟨C08.hold_establishes l, ⟨[], by simp [gstep, Ctl.fn, e1]⟩, ?_, Nat.le_of_eq e4.symm⟩
+      simp [gstep, Ctl.fn, e2, e3]
     | _ => exact absurd ho (by simp [HoldOk])
 
-theorem held_grun (cfg : Cfg) {l : Link Env} (h : C08.Held l) (ops : List GOp) (ho : ∀ o ∈ ops, HoldOk o) :
+theorem HeldRel.readyOK {l l' : Link Env} {out : List (Sent Env)} (hr : HeldRel l l' out)
+    (hf : l'.fixMatured = l.fixMatured) (hq : ReadyOK l) : ReadyOK l' := by
+  intro hf'
+  obtain ⟨qa, qb⟩ := hq (hf ▸ hf')
+  have hp := hr.queues
+  rw [qa, qb] at hp
+  have hl := hp.length_eq
+  simp only [List.length_append, List.append_nil, List.length_nil] at hl
+  exact ⟨List.eq_nil_of_length_eq_zero (by omega), List.eq_nil_of_length_eq_zero (by omega)⟩
+
+theorem held_grun (cfg : Cfg) {l : Link Env} (h : C08.Held l) (hq : ReadyOK l) (ops : List GOp) (ho : ∀ o ∈ ops, HoldOk o) :
     HeldRel l (grun cfg l ops).1 (grun cfg l ops).2 := by
   induction ops generalizing l with
   | nil => exact HeldRel.refl h
   | cons o ops ih =>
     rw [grun_cons]
-    have h1 := held_gstep cfg h o (ho o (by simp))
-    exact h1.trans (ih h1.held (fun o' ho' => ho o' (by simp [ho'])))
+    have h1 := held_gstep cfg h hq o (ho o (by simp))
+    exact h1.trans (ih h1.held (h1.readyOK (gstep_flag cfg l o) hq) (fun o' ho' => ho o' (by simp [ho'])))
 
 theorem isSend_holdOk {a b : Nat} {o : GOp} (h : IsSend a b o) : HoldOk o := by
   cases o <;> simp [IsSend, HoldOk] at h ⊢
@@ -355,7 +386,9 @@ theorem enqueue_now (cfg : Cfg) (l : Link Env) (cf cr : Bool) (d s t : Nat) (e :
 
 theorem ctl_now (c : Ctl) (l : Link Env) : (c.fn l).1.now = l.now := by
   cases c with
-  | partitionOneway s d => unfold Ctl.fn Link.partitionOneway; simp only; split <;> rfl
+  | partition => exact (Link.explicitPartition_fields l).2.2.2.2.2.2.2.2.2.1
+  | hold => unfold Ctl.fn Link.hold; simp only; split <;> rfl
+  | partitionOneway s d => exact (Link.partitionOneway_fields l s d).2.2.2.2.2.2.2.2.2.1
   | repairOneway s d => unfold Ctl.fn Link.repairOneway; simp only; split <;> rfl
   | _ => rfl
 
